@@ -43,6 +43,8 @@ deriving Repr, Inhabited
 structure State where
   classes : List TObj
   insts : List IObj
+  /-- the calls of user hook functions made so far (`__setattr__`), in order; the functions are not looked into -/
+  log : List HookCall := []
 deriving Repr, Inhabited
 
 inductive Err where
@@ -207,6 +209,7 @@ def getAttrOrNil (s : State) (o : Ref) (name : String) : Option Val :=
 inductive RVal where
   | raw (v : Val)
   | bound (self : Ref) (fn : String)
+  | hooked (fn : String) (self : Ref) (key : String)   -- the result of `Call(fn, (self, key))` for a user `__getattr__`
 deriving DecidableEq, Repr, Inhabited
 
 /-- `M__get__(instance, owner)` of Function / ClassMethod / StaticMethod; `instance = none` is `py.None` -/
@@ -228,10 +231,17 @@ deriving Repr, Inhabited
 /-- dunder names for which `reflect` finds a Go method `M<key>` on `*py.Type` -/
 def goSpecial : List String := ["__call__", "__eq__", "__ne__", "__str__", "__repr__"]
 
+/-- `TypeCall(self, name, …)` → `(*Type).CallMethod(name)`: which function a special method call reaches.
+After the round-2 `fix:` the method is looked up on `self.Type()` (its dictionary, then its MRO) – before,
+`self.GetAttrOrNil(name)` looked in the object's own dictionary, the type's own dictionary and the object's
+own MRO (nil for an instance), so inherited hooks were missed and a class's hooks applied to the class itself. -/
+def hookOf (s : State) (self : Ref) (name : String) : Option Val :=
+  nativeGetAttrOrNil s (s.typeOf self) name
+
 /-- `GetAttrString(self, key)` for `self` a class or an instance of a user class -/
 def getAttrString (s : State) (self : Ref) (key : String) : Res RVal :=
   -- TypeCall1(self, "__getattribute__", key)
-  if (getAttrOrNil s self "__getattribute__").isSome then .unmodelled else
+  if (hookOf s self "__getattribute__").isSome then .unmodelled else
   if goSpecial.contains key then .unmodelled else
   -- a class object: its own MRO, bound with __get__(None, cls)
   let viaCls : Option RVal :=
@@ -250,8 +260,12 @@ def getAttrString (s : State) (self : Ref) (key : String) : Res RVal :=
       match nativeGetAttrOrNil s t key with
       | some v => .ok (descrGet v (some self) t)
       | none =>
-        if (getAttrOrNil s self "__getattr__").isSome then .unmodelled else
-        .error .attr
+        -- TypeCall1(self, "__getattr__", key): Call(fn, (self, key))
+        match hookOf s self "__getattr__" with
+        | none => .error .attr
+        | some (.func f) => .ok (.hooked f self key)
+        | some (.plain _) => .error .type        -- 'str' object is not callable
+        | some _ => .unmodelled                  -- a classmethod/staticmethod object as hook
 
 /-- `SetAttrString(self, key, value)` -/
 def setDict (s : State) (self : Ref) (f : Dict → Dict) : State :=
@@ -261,22 +275,55 @@ def setDict (s : State) (self : Ref) (f : Dict → Dict) : State :=
 
 def setAttrString (s : State) (self : Ref) (key : String) (v : Val) : Res State :=
   -- setter := self.Type().NativeGetAttrOrNil(key): only a *Property has M__set__; none is modelled
-  if (getAttrOrNil s self "__setattr__").isSome then .unmodelled else
-  .ok (setDict s self (fun d => d.set key v))
+  -- TypeCall2(self, "__setattr__", key, value): the user function is called INSTEAD of storing
+  match hookOf s self "__setattr__" with
+  | none => .ok (setDict s self (fun d => d.set key v))
+  | some (.func f) => .ok { s with log := s.log ++ [⟨f, self, key, some v⟩] }
+  | some (.plain _) => .error .type
+  | some _ => .unmodelled
 
 /-- `DeleteAttrString(self, key)` -/
 def deleteAttrString (s : State) (self : Ref) (key : String) : Res State :=
-  if (getAttrOrNil s self "__delattr__").isSome then .unmodelled else
+  if (hookOf s self "__delattr__").isSome then .unmodelled else
   match (s.dictOf self).get key with
   | some _ => .ok (setDict s self (fun d => d.del key))
   | none => .error .attr
 
-/-- `Type.M__call__` → `ObjectNew` → `Alloc`, then `ObjectInit` (a user `__init__` is not followed) -/
+/-- `Type.M__call__` → `ObjectNew` → `Alloc`, then `ObjectInit`: `t.GetAttrOrNil("__init__")` on the CLASS
+(its dictionary, the metatype's dictionary, its MRO) and `Call(init, (self))` with the raw function.
+The body of an `__init__` function with tag `f` is, by the convention of the generated cases,
+`self.a = '<f>'` – one `SetAttrString` on the new instance (which may reach `__setattr__`). -/
 def newInstance (s : State) (c : Nat) : Res State :=
+  let i := s.insts.length
   let s' := { s with insts := s.insts ++ [{ cls := c, dict := [] }] }
-  if (getAttrOrNil s' (.cls c) "__init__").isSome then .unmodelled else .ok s'
+  match getAttrOrNil s' (.cls c) "__init__" with
+  | none => .ok s'
+  | some (.func f) => setAttrString s' (.inst i) "a" (.plain f)
+  | some (.plain _) => .error .type
+  | some _ => .unmodelled
 
 /-- builtin `isinstance(obj, cls)` for an instance `i` and a class `c` -/
 def isInstance (s : State) (i : Nat) (c : Nat) : Bool := isSubtype s (s.typeOf (.inst i)) c
+
+/-- builtin `isinstance(obj, a)` with a single second argument (after the round-2 fixes): a `*py.Type`
+without MRO (an instance of a user class) is not a class -/
+def isInstance1 (s : State) (i : Nat) : Ref → Except Err Bool
+  | .cls c => .ok (isInstance s i c)
+  | .inst _ => .error .type
+
+/-- builtin `isinstance(obj, (a1, …, an))`: the `for idx := range class_tuple` loop; errors propagate -/
+def isInstanceT (s : State) (i : Nat) : List Ref → Except Err Bool
+  | [] => .ok false
+  | a :: rest =>
+    match isInstance1 s i a with
+    | .error e => .error e
+    | .ok true => .ok true
+    | .ok false => isInstanceT s i rest
+
+/-- `(*Type).IsSubtype` called through the Go API with an INSTANCE as receiver: `Mro` is nil, so the
+`Base` chain is walked; `Alloc` set the instance's `Base` to its class (`b` is a class, so the first
+comparison `a == b` fails) -/
+def isSubtypeInst (s : State) (i : Nat) (b : Nat) : Bool :=
+  baseChain s s.classes.length (s.typeOf (.inst i)) b
 
 end GPy.C16
